@@ -274,6 +274,43 @@ fn one<X: Sx, Y: Sx>(ctx: &Ctx, idx: u64, l: usize, m: usize, all_flips: bool) {
             vb("blind-bitflip", "-".into(), &pk, ho, &msgs, &cm, Some(&bf));
         }
     }
+    // which of the two optional arguments are present: the signature verifies only for the spellings of the truth.
+    // Grid over committed in {None, Some([]), Some(cm), Some(fake)} x blind in {None, Some(zero), Some(blind), Some(random)},
+    // for this signature and for one issued WITHOUT a commitment over the same signer messages.
+    {
+        let zero = BlindFactor::from_bytes(&[0u8; 32]).unwrap();
+        let other = BlindFactor::random();
+        let fake = vec![b"never committed".to_vec()];
+        let empty: Vec<Vec<u8>> = vec![];
+        let nocom = ctx.call("blind_sign", &base, None, || BSig::<X>::blind_sign(&sk, &pk, None, ho, Some(&msgs))).value;
+        let coms: [(&str, Option<&[Vec<u8>]>); 4] = [("None", None), ("Some([])", Some(&empty)), ("Some(cm)", Some(&cm)), ("Some(fake)", Some(&fake))];
+        let blinds: [(&str, Option<&BlindFactor>); 4] = [("None", None), ("Some(zero)", Some(&zero)), ("Some(blind)", Some(&blind)), ("Some(random)", Some(&other))];
+        for (cn, c) in coms {
+            for (bn, b) in blinds {
+                // the honest signature over the commitment
+                let c_true = cn == "Some(cm)" || (m == 0 && cn != "Some(fake)");
+                let truth = c_true && bn == "Some(blind)";
+                let case = format!("{}/vbs-presence/with-commitment/{}/{}", base, cn, bn);
+                let o = ctx.call("verify_blind_sign", &case, None, || bsig.verify_blind_sign(&pk, ho, Some(&msgs), c, b));
+                if truth {
+                    ctx.count(if o.outcome.is_ok() { "presence_grid_truths_accepted" } else { "presence_grid_truths_refused(C05's business)" }, 1);
+                } else {
+                    not_ok(ctx, "verify_blind_sign/presence-grid/with-commitment", &case, &o.outcome, json!({"committed":cn,"blind":bn,"M":m}));
+                }
+                // the signature issued without any commitment
+                if let Some(ns) = &nocom {
+                    let truth = (cn == "None" || cn == "Some([])" || (m == 0 && cn == "Some(cm)")) && (bn == "None" || bn == "Some(zero)");
+                    let case = format!("{}/vbs-presence/no-commitment/{}/{}", base, cn, bn);
+                    let o = ctx.call("verify_blind_sign", &case, None, || ns.verify_blind_sign(&pk, ho, Some(&msgs), c, b));
+                    if truth {
+                        ctx.count(if o.outcome.is_ok() { "presence_grid_truths_accepted" } else { "presence_grid_truths_refused(C05's business)" }, 1);
+                    } else {
+                        not_ok(ctx, "verify_blind_sign/presence-grid/no-commitment", &case, &o.outcome, json!({"committed":cn,"blind":bn,"M":m}));
+                    }
+                }
+            }
+        }
+    }
     // header, pk
     let hb = hdr.octets().to_vec();
     let mut alts: Vec<Vec<u8>> = vec![{ let mut x = hb.clone(); x.push(0); x }];
